@@ -1041,6 +1041,35 @@ def cases_C13(rng, tier):
     out += depth_sweep_cases(("Header", "CoseKey", "CoseKeySet", "ClaimsSet", "CoseSign1", "CoseEncrypt0", "CoseMac", "CoseSign"))
     out += protected_nesting_cases(api=True)
     out += bignum_toplevel_cases()
+    # the EMPTY input and the one-byte inputs at every entry point of every type (an accepted input is exactly one
+    # CBOR item: no bytes at all is none), plus the shortest accepted encoding of each type cut at every position
+    shortest = {"Header": b"\xa0", "ProtectedHeader": b"\xa0", "CoseKey": b"\xa1\x01\x04", "CoseKeySet": b"\x80", "ClaimsSet": b"\xa0", "Label": b"\x00", "Value": b"\x00",
+                "CoseSignature": b"\x83\x40\xa0\x40", "CoseSign": b"\x84\x40\xa0\xf6\x80", "CoseSign1": b"\x84\x40\xa0\xf6\x40", "CoseMac": b"\x85\x40\xa0\xf6\x40\x80", "CoseMac0": b"\x84\x40\xa0\xf6\x40",
+                "CoseRecipient": b"\x83\x40\xa0\xf6", "CoseEncrypt": b"\x84\x40\xa0\xf6\x80", "CoseEncrypt0": b"\x83\x40\xa0\xf6", "PartyInfo": b"\x83\xf6\xf6\xf6", "SuppPubInfo": b"\x82\x00\x40",
+                "CoseKdfContext": b"\x84\x01\x83\xf6\xf6\xf6\x83\xf6\xf6\xf6\x82\x00\x40"}
+    for ty in ALL_TYPES + ["RegP:Algorithm", "Reg:KeyType", "RegP:CwtClaimName", "Reg:CoapContentFormat"]:
+        out.append(case("dec", ty, b"", fam="empty-input", expect_re=r"err:\w+"))
+        if ty in TAGGED_TYPES: out.append(case("dectag", ty, b"", fam="empty-input", expect_re=r"err:\w+"))
+        b = shortest.get(ty)
+        if b is None: continue
+        out.append(case("dec", ty, b, fam="base", key=(ty, b), expect_re=r"ok.*"))
+        out.append(case("decval", ty, b, fam="api-decode", key=(ty, b), impl_only=True))
+        for k in range(len(b)):
+            out.append(case("dec", ty, b[:k], fam="prefix", key=(ty, b)))
+        out.append(case("dec", ty, b + b"\x00", fam="suffix", key=(ty, b), strict_err=True))
+    # tagged encoding = tag head + untagged encoding = serialisation of the tagged item, for messages whose protected
+    # header retains wire bytes of every spelling (top level and nested)
+    import gen as _g
+    _g.wire_protected(rng)
+    for ty in TAGGED_TYPES:
+        for pb, h in _g.WIRE_PROTS:
+            tail = {"CoseSign1": [NULL, B(b"s")], "CoseMac0": [NULL, B(b"t")], "CoseEncrypt0": [NULL], "CoseSign": [NULL, ('a', [d_signature(d_protected(pb, h), D_EMPTY_HEADER, b"s")])],
+                    "CoseMac": [NULL, B(b"t"), ('a', [A(d_protected(pb, h), D_EMPTY_HEADER, NULL, ('a', []))])], "CoseEncrypt": [NULL, ('a', [A(d_protected(pb, h), D_EMPTY_HEADER, NULL, ('a', []))])]}[ty]
+            d = ('a', [d_protected(pb, h), D_EMPTY_HEADER] + tail)
+            want = enc(pyspec.wire_value(ty, d))
+            out.append(case("enc", ty, enc(d), fam="enc", key=(ty, enc(d)), expect="ok " + want.hex()))
+            out.append(case("encval", ty, enc(d), fam="api-encode", key=(ty, enc(d)), impl_only=True))
+            out.append(case("enctag", ty, enc(d), fam="enctag-retained", expect="ok " + (head(6, MSG_TAG[ty]) + want).hex()))
     return out
 
 def post_C13(cases, impl):
